@@ -1,5 +1,6 @@
 import BddVerif.Props.C20
 import BddVerif.Lemmas.AlgoEq3DotCanon
+import BddVerif.Lemmas.DotAlgoAll
 #print axioms B.Props.C20.dotStmts_eq
 #print axioms B.Props.C20.dot_outcome
 #print axioms B.Props.C20.dot_frame
@@ -16,6 +17,8 @@ import BddVerif.Lemmas.AlgoEq3DotCanon
 #print axioms B.Props.C20.dot_eval_den
 #print axioms B.Props.C20.dot_write_chunking_irrelevant
 #print axioms B.Props.C20.dot_write_faithful
+#print axioms B.Props.C20.dot_write_pieces
+#print axioms B.Props.C20.dot_write_invalid_order
 #print axioms B.AlgoEq3Dot.write_bdd_as_dot_eq_writeSeq
 #print axioms B.AlgoEq3Dot.write_bdd_as_dot_eq_model
 #print axioms B.AlgoEq3Dot.write_bdd_as_dot_eq_model_ok
@@ -29,3 +32,4 @@ import BddVerif.Lemmas.AlgoEq3DotCanon
 #print axioms B.AlgoEq3Dot.Bdd_write_as_dot_string_eq_model
 #print axioms B.AlgoEq3Dot.Bdd_to_dot_string_canon
 #print axioms B.AlgoEq3Dot.to_dot_string_translated_eval
+#print axioms B.DotAlgoAll.write_bdd_as_dot_eq_writeDotIO
